@@ -1,0 +1,25 @@
+//go:build verif
+
+package plugin
+
+import "io"
+
+// VerifTransport, when set, replaces the plugin process by a simulated
+// transport: stdout is what the client reads, stdin what it writes, closeFn is
+// called when the client closes the connection. Only compiled with the
+// "verif" build tag, for the verification harness in /verif.
+var VerifTransport func(name, protocol string) (stdout io.Reader, stdin io.Writer, closeFn func())
+
+func verifOpenConn(name, protocol string) *clientConnection {
+	if VerifTransport == nil {
+		return nil
+	}
+	stdout, stdin, closeFn := VerifTransport(name, protocol)
+	if stdout == nil {
+		return nil
+	}
+	return &clientConnection{Reader: stdout, Writer: stdin, close: closeFn}
+}
+
+// verifNoProcess reports whether the connection is a simulated transport.
+func verifNoProcess(cc *clientConnection) bool { return cc.cmd == nil }
